@@ -86,6 +86,20 @@ fn cow(p: &[i64], i: usize) -> Cow<'static, str> {
 fn sref(text: &'static str) -> &'static String {
     STRINGS.with(|a| *a.borrow_mut().entry(text).or_insert_with(|| Box::leak(Box::new(text.to_string()))))
 }
+/// `&str` values that are PREFIXES OF ONE BUFFER: successive values of a position start at the same address and
+/// differ only in length (a pointer-equality shortcut in a rebuild is wrong for them)
+const BUF: &str = "hello world<x>";
+const CBUF: &str = "a b on c";
+const SBUF: &str = "color: red; margin: 0";
+fn pre(p: &[i64], i: usize) -> &'static str {
+    &BUF[..[0, 1, 5, 11, 14, 5][at(p, i) as usize % 6]]
+}
+fn cpre(p: &[i64], i: usize) -> &'static str {
+    &CBUF[..[0, 1, 3, 6, 8][at(p, i) as usize % 5]]
+}
+fn spre(p: &[i64], i: usize) -> &'static str {
+    &SBUF[..[0, 10, 21][at(p, i) as usize % 3]]
+}
 fn some(p: &[i64], i: usize) -> bool {
     at(p, i) % 3 != 0
 }
@@ -260,6 +274,14 @@ pub fn run_case(c: &Sexp) -> Sexp {
         32 => |p: &[i64]| (0..at(p, 0) as usize % 4).map(|j| if b(p, 1 + j) { Either::Right((s(p, 1 + j), s(p, 2 + j))) } else { Either::Left(s(p, 1 + j)) }).collect::<Vec<_>>(),
         33 => |p: &[i64]| keyed(keys(p), |kv: &(i64, String)| kv.0, |_: usize, kv: (i64, String)| (|_: usize| {}, (kv.1.clone(), span().child(kv.1)))),
         34 => |p: &[i64]| if some(p, 0) { Ok(strings(&p[1..])) } else { Err(Boom) },
+        // ------------------------------------------------------------------ &str prefixes of one buffer
+        36 => |p: &[i64]| pre(p, 0),
+        37 => |p: &[i64]| (pre(p, 0), s(p, 1), pre(p, 2)),
+        38 => |p: &[i64]| some(p, 0).then(|| pre(p, 1)),
+        39 => |p: &[i64]| (0..at(p, 0) as usize % 4).map(|j| pre(p, 1 + j)).collect::<Vec<_>>(),
+        40 => |p: &[i64]| Cow::Borrowed(pre(p, 0)),
+        41 => |p: &[i64]| [pre(p, 0), pre(p, 1)],
+        42 => |p: &[i64]| if b(p, 0) { Either::Right(s(p, 2)) } else { Either::Left(pre(p, 1)) },
         // ------------------------------------------------------------------ primitives
         100 => |p: &[i64]| n(p, 0) as u8,
         101 => |p: &[i64]| n(p, 0) as u16,
@@ -344,6 +366,15 @@ pub fn run_case(c: &Sexp) -> Sexp {
         272 => |p: &[i64]| ul().child(strings(p).into_iter().map(|x| li().child(x)).collect::<Vec<_>>()),
         273 => |p: &[i64]| div().child(if b(p, 0) { Either::Right(span().child(s(p, 1))) } else { Either::Left(p_el().id(t(p, 2)).child(t(p, 1))) }),
         274 => |p: &[i64]| div().child((some(p, 0).then(|| span().class(cls(p, 1)).child(t(p, 2))), strings(&p[2..]), p_el().child(n(p, 5) as i32))),
+        // ------------------------------------------------------------------ &str prefixes of one buffer as child / attribute / class / style / inner_html
+        290 => |p: &[i64]| p_el().child(pre(p, 0)),
+        291 => |p: &[i64]| div().id(pre(p, 0)).title(some(p, 1).then(|| pre(p, 2))).child((pre(p, 3), span().child(pre(p, 4)))),
+        292 => |p: &[i64]| div().class(cpre(p, 0)).child(pre(p, 5)),
+        293 => |p: &[i64]| div().class(some(p, 1).then(|| cpre(p, 0))).child(t(p, 5)),
+        294 => |p: &[i64]| div().style(spre(p, 0)).child(t(p, 5)),
+        295 => |p: &[i64]| div().style(("color", &"redder"[..[3, 6][at(p, 0) as usize % 2]])).child(t(p, 5)),
+        296 => |p: &[i64]| div().inner_html(&"<b>x</b><i>y</i>"[..[0, 8, 16][at(p, 0) as usize % 3]]),
+        297 => |p: &[i64]| div().attr("data-x", pre(p, 0)).child(t(p, 5)),
         // ------------------------------------------------------------------ ViewTemplate
         280 => |p: &[i64]| ViewTemplate::new(div().child((t(p, 0), span().child(s(p, 1)), s(p, 2)))),
         281 => |p: &[i64]| ViewTemplate::new(p_el().id(t(p, 0)).class(cls(p, 1)).child(t(p, 2))),
